@@ -270,7 +270,7 @@ def check(ctx):
     # be parsed after both typedefs, and its fields are appended to the primary's list
     TC = gsa.summarise(ctx, 'transformer', 'Transformer._create_typedef_compound', inline_only=())
     fs = [e for e in gsa.find(TC, 'store', r'\.fields$')]
-    r4.check(bool(fs) and all(re.match(r'^self\._tag_ns\[.*\]\.fields$', e.value) for e in fs), 'secondary typedef records alias the primary field list', tm.rel, fs[0].line if fs else TC.func.lineno,
+    r4.check(bool(fs) and all(re.match(r'^self\._tag_ns(\[.*\]|\.get\(.*\))\.fields$', e.value) for e in fs), 'secondary typedef records alias the primary field list', tm.rel, fs[0].line if fs else TC.func.lineno,
              'a second typedef of a struct tag gets %s as its fields: a copy taken before the struct body is seen stays empty, so `typedef struct _A A; typedef struct _A B; struct _A {...}` '
              'and the same declarations with the body first give different GIR' % [e.value[:60] for e in fs], detail=[e.value[:80] for e in fs])
     PFD = gsa.summarise(ctx, 'transformer', 'Transformer._parse_fields', inline_only=())
